@@ -79,3 +79,23 @@ def months_between(calc, y1, m1, d1, y2, m2, d2):
 def lemma():
     """No code: the contract's postcondition is a statement over spec functions only."""
     return None
+
+
+def compare_chain(calc, y):
+    """Month starts/ends of year y (plus the first day of year y+1 when it exists) sorted by day number; returns the
+    signs of compare() between neighbours and between equal dates."""
+    from pyoda_time._year_month_day import _YearMonthDay
+
+    pts = []
+    for m in range(1, calc._get_months_in_year(y) + 1):
+        for d in (1, calc._get_days_in_month(y, m)):
+            ymd = _YearMonthDay._ctor(year=y, month=m, day=d)
+            pts.append((calc._get_days_since_epoch(ymd), ymd))
+    if y + 1 <= calc._max_year:
+        ymd = _YearMonthDay._ctor(year=y + 1, month=calc._get_year_month_day_from_year_and_day_of_year(y + 1, 1)._month, day=1)
+        pts.append((calc._get_days_since_epoch(ymd), ymd))
+    pts.sort(key=lambda p: p[0])
+    out = []
+    for (n1, a), (n2, b) in zip(pts, pts[1:]):
+        out.append((n2 - n1, calc.compare(a, b), calc.compare(b, a), calc.compare(a, a)))
+    return out
